@@ -9,20 +9,20 @@ LEVEL = {
  'C01': ('E2', 'runtime contract (fiber kernel) scenarios: swap targets saved/not running, deferred actions, wake-before-switch windows, over all interleavings of 2 kernel threads within the bounds'),
  'C02': ('E2', 'Chase-Lev deque of work_stealing_deque.c: every interleaving (SC) and every store-buffer reordering (x86-TSO) of one owner and 1-2 thieves within the stated operation counts, incl. the growth boundary'),
  'C03': ('E2', 'mutex over the fiber contract kernel: all interleavings of 2-3 fibers'),
- 'C04': ('E2', 'join/tryjoin/detach over the fiber contract kernel'),
- 'C05': ('E2', 'condition variable over the fiber contract kernel'),
+ 'C04': ('E2', 'join / detach (quick) and tryjoin, join-with-NULL-result, two concurrent actors (thorough, stretch) against the real fiber.c completion path over the fiber contract kernel: all interleavings of the stated actors; the VM liveness ghost decides reclaimed-once / never touched afterwards'),
+ 'C05': ('E2', 'real fiber_cond.c and the real unlock-and-wait path over the fiber contract kernel, with fiber_mutex replaced by its C03 contract: all interleavings of 1-2 waiters with a signaller (signal / broadcast, mutex held or released)'),
  'C06': ('E2', 'semaphore over the fiber contract kernel'),
  'C07': ('E1+E2', 'inductive step over the 64-bit lock word for every operation from an arbitrary invariant-satisfying state with arbitrary interference (covers histories of any length for the word protocol) + small concurrent scenario'),
  'C08': ('E1', 'every shim of fiber_io.c and the fd half of fiber_event_native.c symbolically executed for arbitrary descriptors, flags and environment answers (ghost non-blocking kernel), bounded EAGAIN rounds'),
  'C09': ('E1+E2', 'sleep arithmetic for all 2^64 argument combinations and timer phases, sleeper tree for arbitrary keys, wake-once step; wake race as concurrent scenario'),
  'C10': ('E2', 'yield fairness on the real scheduler: bypass counter bounded for every yield pattern within the step bound'),
- 'C11': ('E2', 'channels and signals over the fiber contract kernel'),
- 'C12': ('E2', 'barrier over the fiber contract kernel'),
+ 'C11': ('E2', 'signal wait/raise handshake decided over all interleavings; channel scenarios (queue + signal) are stretch jobs without verdict so far, for them the claim is compositional (queues: C15/C16, never-lost raise: the signal scenarios) and says so'),
+ 'C12': ('E2', 'barrier over the fiber contract kernel: count 2 one round (SC, TSO) and count 1 two rounds decided; count 2 x 2 rounds and count 3 are stretch jobs without verdict so far and are not claimed'),
  'C13': ('E2', 'mpmc fifo + hazard pointers, all interleavings of small producer/consumer sets with node recycling'),
- 'C14': ('E1+E2', 'hazard_pointer_scan / binary search / threshold arithmetic for arbitrary address patterns and slot contents (N<=3,K<=2); protocol interleavings as concurrent scenario'),
+ 'C14': ('E1+E2', 'hazard_pointer_scan / binary search / threshold arithmetic for arbitrary ordering patterns (E1, N<=3,K<=2) and for arbitrary 64-bit slot values on integer addresses (E2); scan racing with a registration is a stretch job; the publish/validate side inside mpmc_fifo is not covered'),
  'C15': ('E2', 'mpsc / spsc / relaxed mpsc: every interleaving (and x86-TSO reordering for small configurations) of the stated producer/consumer programs, incl. liveness of the consumer (nothing lost)'),
  'C16': ('E2', 'ring buffer trypush/trypop: every interleaving of the stated programs from symbolic start indices incl. wrap-around through 2^64'),
- 'C17': ('E2', 'work queue: every interleaving of a draining worker with concurrent pushers'),
+ 'C17': ('E2', 'work queue: every interleaving of a draining worker with 1-2 concurrent pushers, sequential hand-over, and (thorough) the general program in which any of 2-3 pushing threads may become the worker'),
  'C18': ('E1+E2', 'spinlock word transitions for all 2^64 words (wrap-around) + contention scenario'),
  'C19': ('E3+E1', 'the x86-64 context-switch assembly interpreted symbolically over z3 bit-vectors for all register/memory contents (round trip, invariant induction, fresh context) + fiber_context_init / create / destroy for all stack sizes in range under CBMC'),
  'C20': ('E2', 'double-word-CAS structures: every interleaving of ABA-provoking programs (pop / reuse / push) on lifo, dist_fifo, mpmc_stack, multi-signal'),
